@@ -152,11 +152,13 @@ where
             // TLC-generated steps carry the operand as "v" (load) or "n" (integer operand / shift amount),
             // Sum/Product as a register list "as"
             let num = if e.get("v").is_some() { g("v") } else { g("n") };
+            // wide operands: the raw bit pattern as a decimal string
+            let rawv: Option<u128> = e.get("rawv").and_then(|r| r.get("raw")).and_then(|r| r.as_str()).and_then(|r| r.parse::<u128>().ok());
             let (a0, b0) = if let Some(list) = e.get("as").and_then(|v| v.as_array()) {
                 (list.get(0).and_then(|v| v.as_i64()).unwrap_or(1), list.get(1).and_then(|v| v.as_i64()).unwrap_or(1))
             } else { (g("a"), g("b")) };
             (kind, op, (g("d") - 1) as usize, (a0 - 1).max(0) as usize, (b0 - 1).max(0) as usize, g("fm") as u64,
-             (num as i128) as u128, g("nt") as usize)
+             rawv.unwrap_or((num as i128) as u128), g("nt") as usize)
         } else {
             let kind = if step < 3 { 0 } else { [1u64, 1, 1, 1, 2, 3, 4, 4, 5, 6, 0][rng.below(11) as usize] };
             let op = match kind {
@@ -343,6 +345,35 @@ where
     let mut rng = Rng::new(c.seed ^ ((l.w as u64) << 32) ^ ((l.f as u64) << 16) ^ ((l.s as u64) << 8) ^ 0xC18);
     for _ in 0..c.nprog {
         program::<F>(c, &mut rng, None);
+    }
+    // systematic three-step programs  r1 = a; r2 = b; r3 = r1 op r2  over the pairwise boundary lattice
+    // (all pairs for the 8-bit layouts, a seeded sample of them plus random pairs for the wide ones)
+    let lat = gen::lattice_small(l);
+    let mut pairs: Vec<(u128, u128)> = vec![];
+    for &a in &lat { for &b in &lat { pairs.push((a, b)); } }
+    for _ in 0..lat.len() { pairs.push((rng.pattern(l.w), rng.pattern(l.w))); }
+    let keep = if l.w == 8 { if c.tier == "thorough" { pairs.len() } else { 300 } } else { c.nprog };
+    for (oi, op) in BINOPS.iter().chain(INTOPS.iter()).enumerate() {
+        let mut sel = pairs.clone();
+        if sel.len() > keep {
+            for i in 0..keep { let j = i + rng.below((sel.len() - i) as u64) as usize; sel.swap(i, j); }
+            sel.truncate(keep);
+        }
+        for (a, b) in sel {
+            let sv = |p: u128| -> serde_json::Value {
+                let n = sval(p, l.s, l.w);
+                // script operands are i64: wide patterns are passed through "raw" strings
+                serde_json::json!({"raw": format!("{}", p), "neg": n.neg})
+            };
+            let is_int = INTOPS.contains(op);
+            let steps = if is_int {
+                vec![serde_json::json!({"op":"load","d":1,"rawv":sv(a)}), serde_json::json!({"op":*op,"d":3,"a":1,"fm":oi % 3,"rawv":sv(b)})]
+            } else {
+                vec![serde_json::json!({"op":"load","d":1,"rawv":sv(a)}), serde_json::json!({"op":"load","d":2,"rawv":sv(b)}),
+                     serde_json::json!({"op":*op,"d":3,"a":1,"b":2,"fm":oi % 6})]
+            };
+            program::<F>(c, &mut rng, Some(&steps));
+        }
     }
 }
 
